@@ -49,3 +49,77 @@ package scheduler
 //@   props C17
 //@   requires s != nil && s.items != nil && len(s.workchans) > 0 && (i != nil ==> typeis(i, Item))
 //@   guardcall send#1: !(time.Unix(it.next + it.Offset, 0) > ts)
+
+// ---------------------------------------------------------------- the per-id index (C17)
+// "each occurrence exactly once ... not at all for occurrences after the task was released" rests
+// on the index nextTime[id] naming exactly the (when, id) key under which the task's single item
+// sits in the queue: Schedule and Release delete by that key. The btree is outside the model: its
+// operations are trusted to touch no modelled memory, and the contracts below pin down WHICH keys
+// are deleted and inserted and what the index records.
+//@ func =(*github.com/google/btree.BTree).Delete
+//@   trusted
+//@   modifies nothing
+//@ func =(*github.com/google/btree.BTree).ReplaceOrInsert
+//@   trusted
+//@   modifies nothing
+//@ func (Schedulable).ID
+//@   trusted
+//@   pure
+//@ func (Schedulable).Schedule
+//@   trusted
+//@   pure
+//@ func (Schedulable).Offset
+//@   trusted
+//@   pure
+//@ func (Schedulable).LastScheduled
+//@   trusted
+//@   pure
+//@ func (*SchedulerMetrics).schedule
+//@   trusted
+//@   modifies nothing
+//@ func (*SchedulerMetrics).scheduleFail
+//@   trusted
+//@   modifies nothing
+//@ func (*SchedulerMetrics).release
+//@   trusted
+//@   modifies nothing
+//@ func field:TreeScheduler.onErr
+//@   trusted
+//@   modifies nothing
+//@ func =(*github.com/benbjohnson/clock.Timer).Stop
+//@   trusted
+//@   modifies nothing
+//@ func =(*github.com/benbjohnson/clock.Timer).Reset
+//@   trusted
+//@   modifies nothing
+//@ func =(github.com/benbjohnson/clock.Clock).Now
+//@   trusted
+//@   modifies nothing
+
+// Schedule (and re-Schedule): on success the task's item is inserted under the key
+// (next occurrence + offset, id) and the index records exactly that key; an item recorded before
+// is deleted under its recorded key first, and nothing is deleted for a task not yet in the index.
+//@ func (*TreeScheduler).Schedule
+//@   props C17
+//@   requires s != nil && sch != nil && s.nextTime != nil && s.priorityQueue != nil && s.sm != nil && s.timer != nil && s.time != nil && s.onErr != nil
+//@   requires sch.Schedule() != nil
+//@   ensures [inserted-under-indexed-key] result == nil ==> called(ReplaceOrInsert) && typeis(callarg(ReplaceOrInsert, 0), Item)
+//@       && as(callarg(ReplaceOrInsert, 0), Item).id == sch.ID()
+//@       && as(callarg(ReplaceOrInsert, 0), Item).when == as(callarg(ReplaceOrInsert, 0), Item).next + as(callarg(ReplaceOrInsert, 0), Item).Offset
+//@       && has(s.nextTime, sch.ID()) && s.nextTime[sch.ID()] == as(callarg(ReplaceOrInsert, 0), Item).when
+//@   ensures [old-item-deleted-by-its-key] result == nil && old(has(s.nextTime, sch.ID())) ==> called(Delete) && typeis(callarg(Delete, 0), Item)
+//@       && as(callarg(Delete, 0), Item).id == sch.ID() && as(callarg(Delete, 0), Item).when == old(s.nextTime[sch.ID()])
+//@   ensures [nothing-else-deleted] !old(has(s.nextTime, sch.ID())) ==> !called(Delete)
+//@   ensures [other-tasks-untouched] forall j ID :: j != sch.ID() ==> has(s.nextTime, j) == old(has(s.nextTime, j)) && s.nextTime[j] == old(s.nextTime[j])
+//@   ensures [failure-leaves-index] result != nil ==> !called(Delete) && !called(ReplaceOrInsert) && has(s.nextTime, sch.ID()) == old(has(s.nextTime, sch.ID()))
+
+// release: the task's item is deleted under its recorded key and the task leaves the index;
+// a task that is not in the index causes no deletion.
+//@ func (*TreeScheduler).release
+//@   props C17
+//@   requires s != nil && s.nextTime != nil && s.priorityQueue != nil
+//@   modifies map(s.nextTime)
+//@   ensures !has(s.nextTime, taskID)
+//@   ensures old(has(s.nextTime, taskID)) ==> called(Delete) && typeis(callarg(Delete, 0), Item) && as(callarg(Delete, 0), Item).id == taskID && as(callarg(Delete, 0), Item).when == old(s.nextTime[taskID])
+//@   ensures !old(has(s.nextTime, taskID)) ==> !called(Delete)
+//@   ensures forall j ID :: j != taskID ==> has(s.nextTime, j) == old(has(s.nextTime, j)) && s.nextTime[j] == old(s.nextTime[j])
